@@ -148,13 +148,17 @@ def callAdd (c : Ctx) (k : Key) (v : Val) : Except Err Val Ã— Ctx :=
     | some _ => (.error .exists, c)
     | none => (.ok v, { c with store := sSet c.store k v })
 
-/-- update: new value = existing item handed in + data -/
+/-- how the store's callbacks merge data into a row: data 0 (the Go value nil) resets the row to the nil row â€” a callback
+may legitimately hand back `(nil, nil)` for a row that exists â€”, any other data is added -/
+def merge (e v : Val) : Val := if v = 0 then 0 else e + v
+
+/-- update: new value = existing item handed in, merged with the data -/
 def callUpd (c : Ctx) (k : Key) (v : Val) (e : Val) : Except Err Val Ã— Ctx :=
   let (f, c) := c.call .upd
   if f then (.error .inj, c)
   else match sGet c.store k with
     | none => (.error .notFound, c)
-    | some _ => (.ok (e + v), { c with store := sSet c.store k (e + v) })
+    | some _ => (.ok (merge e v), { c with store := sSet c.store k (merge e v) })
 
 /-- upsert: merges the data into the row. Handed the existing item (cache hit) it returns the merged row; without it
 (`nil`: cache miss) it merges in the store and returns only what it was given â€” the partial row, as the API allows -/
@@ -162,8 +166,8 @@ def callUpsert (c : Ctx) (k : Key) (v : Val) (e : Option Val) : Except Err Val Ã
   let (f, c) := c.call .upsert
   if f then (.error .inj, c)
   else match e with
-    | some e => (.ok (e + v), { c with store := sSet c.store k (e + v) })
-    | none => (.ok v, { c with store := sSet c.store k ((sGet c.store k).getD 0 + v) })
+    | some e => (.ok (merge e v), { c with store := sSet c.store k (merge e v) })
+    | none => (.ok v, { c with store := sSet c.store k (merge ((sGet c.store k).getD 0) v) })
 
 def callDel (c : Ctx) (k : Key) : Except Err Unit Ã— Ctx :=
   let (f, c) := c.call .del
